@@ -59,7 +59,7 @@ From SC.Model Require Import Base Num NumF64 Types Config Case Match Chrono UiTo
      RuleFns Rules Format Lexer Api Run64 Corr.
 From SC.Spec Require Import Calendar.
 From SC.Gen Require Import RustConsts.
-From SC.Proofs Require Import C01_Parser C01_Rewrite C16.
+From SC.Proofs Require Import C01_Parser C01_Rewrite C16 ParserPure.
 
 Local Open Scope Z_scope.
 Ltac Zify.zify_post_hook ::= Z.to_euclidean_division_equations.
@@ -248,7 +248,7 @@ Fixpoint ast_in (B : Z) (a : ast F) : Prop :=
   match a with
   | AItem i => item_in B i
   | ABinary l _ r => ast_in B l /\ ast_in B r
-  | APrefixUnary _ e | AAssignment _ e => ast_in B e
+  | APrefixUnary _ e | AAssignment _ _ e => ast_in B e
   | _ => True
   end.
 
@@ -261,7 +261,7 @@ Definition vars_in (B : Z) (vs : vars F) : Prop :=
 Fixpoint ast_ops (a : ast F) : Z :=
   match a with
   | ABinary l _ r => ast_ops l + ast_ops r + 1
-  | APrefixUnary _ e | AAssignment _ e => ast_ops e
+  | APrefixUnary _ e | AAssignment _ _ e => ast_ops e
   | _ => 0
   end.
 
@@ -320,7 +320,7 @@ Theorem execute_ast_ok cfg : bexec_total -> cfg_keys_ok cfg ->
                 vars_in (B + 86400 * ast_ops a) vs' /\
                 match r with IOk v => val_in (B + 86400 * ast_ops a) v | IErr _ => True end.
 Proof.
-  intros Hb Hc. induction a as [ |f|i|m|l IHl op r IHr|op e IHe|name e IHe|v|name];
+  intros Hb Hc. induction a as [ |f|i|m|l IHl op r IHr|op e IHe|name ntoks e IHe|v|name];
     intros B vs HB Ha Hvs; cbn [execute_ast ast_ops] in *; rewrite ?Z.mul_0_r, ?Z.add_0_r in *.
   - do 2 eexists. split; [reflexivity|]. split; [exact Hvs|exact I].
   - do 2 eexists. split; [reflexivity|]. split; [exact Hvs|exact I].
@@ -358,8 +358,8 @@ Proof.
     destruct (IHe B vs HB Ha Hvs) as (x & vs1 & -> & Hv1 & Hx). cbn [bind].
     destruct x as [v|m1]; [|do 2 eexists; split; [reflexivity|split; [exact Hv1|exact I]]].
     do 2 eexists. split; [reflexivity|]. split; [|exact Hx].
-    destruct (assoc name vs1) as [vi|]; [|exact Hv1].
-    apply (assoc_insert_Forall (fun vi : varinfo F => val_in _ (v_data vi))); [exact Hx|exact Hv1].
+    destruct (assoc name vs1) as [vi|];
+      apply (assoc_insert_Forall (fun vi : varinfo F => val_in _ (v_data vi))); [exact Hx|exact Hv1|exact Hx|exact Hv1].
   - do 2 eexists. split; [reflexivity|]. split; [exact Hvs|exact I].
   - (* AVariable *)
     do 2 eexists. split; [reflexivity|]. split; [exact Hvs|].
@@ -1640,8 +1640,8 @@ Corollary execute_text_no_panic_default ck lang (vs : vars float) line st3 B :
 Proof. exact (execute_text_no_panic_reachable ck [] lang vs line st3 B I). Qed.
 
 (* ====================================================================================== *)
-(* 6. [vars_ne] is an invariant of the session: the parser registers a variable under the  *)
-(*    tokens left of '=' (at least one), the interpreter keeps the tokens                  *)
+(* 6. [vars_ne] is an invariant of the session: the interpreter registers a variable under  *)
+(*    the tokens left of '=' (at least one) that the parser put into the assignment node    *)
 (* ====================================================================================== *)
 Section VarsInvariant.
 Context {F : Type} {NF : Num F}.
@@ -1683,12 +1683,30 @@ Proof.
     destruct tokens as [|a [|b r]]; cbn [length nth_opt] in *; try lia. discriminate.
 Qed.
 
-Lemma parse_assignment_vars_ne (tokens : list (token F)) vs :
-  vars_ne vs -> vars_ne (snd (fst (parse_assignment tokens vs))).
+(* what the parser hands to the interpreter: an assignment-free tree, or an assignment node whose
+   name tokens are not empty and whose right-hand side is assignment-free *)
+Definition asg_ok (a : ast F) : Prop :=
+  match a with
+  | AAssignment _ toks e => toks <> [] /\ pure e = true
+  | _ => pure a = true
+  end.
+Definition pres_ok (p : @pres F) : Prop := match p with PAst a => asg_ok a | _ => True end.
+
+Lemma pure_asg_ok (a : ast F) : pure a = true -> asg_ok a.
+Proof. destruct a; cbn [asg_ok pure]; intro H; try exact H. discriminate. Qed.
+
+Lemma parse_level_pres_ok f l (ts : list (token F)) : pres_ok (fst (parse_level f l ts)).
 Proof.
-  intro Hne. unfold parse_assignment.
-  destruct (find_index (is_op OP_EQ) tokens) as [i|]; [|exact Hne].
-  destruct (nth_opt tokens 0) as [t0|] eqn:E0; [|exact Hne].
+  destruct (parse_level f l ts) as [[a|m|] r] eqn:E; cbn [fst pres_ok]; try exact I.
+  apply pure_asg_ok. exact (parse_level_pure _ _ _ _ _ E).
+Qed.
+
+Lemma parse_assignment_ok (tokens : list (token F)) vs :
+  snd (fst (parse_assignment tokens vs)) = vs /\ pres_ok (fst (fst (parse_assignment tokens vs))).
+Proof.
+  unfold parse_assignment.
+  destruct (find_index (is_op OP_EQ) tokens) as [i|]; [|split; [reflexivity|reflexivity]].
+  destruct (nth_opt tokens 0) as [t0|] eqn:E0; [|split; reflexivity].
   pose proof (assign_name_loop_first tokens vs (to_lowercase (token_to_string vs t0))) as Hidx.
   destruct (assign_name_loop (S (length tokens)) tokens vs 0 (to_lowercase (token_to_string vs t0))) as [idx name].
   cbn [fst] in Hidx.
@@ -1696,50 +1714,49 @@ Proof.
   - (* the name has at least one token *)
     assert (Hf : firstn (Nat.pred idx) tokens <> []).
     { destruct tokens as [|a r]; [discriminate|]. destruct idx as [|[|k]]; try lia. cbn [Nat.pred firstn]. discriminate. }
-    destruct (parse_level (parse_fuel tokens) LAddSub (skipn idx tokens)) as [p i'].
-    destruct p as [a|m|]; try exact Hne.
-    destruct a; try exact Hne; cbn [fst snd];
-      (destruct (assoc_mem name vs); [exact Hne|];
-       apply (assoc_insert_Forall (fun vi : varinfo F => v_tokens vi <> [])); [exact Hf|exact Hne]).
-  - (* the line is the single token '=': the right-hand side is empty and nothing is registered *)
+    destruct (parse_level (parse_fuel tokens) LAddSub (skipn idx tokens)) as [p i'] eqn:Ep.
+    destruct p as [a|m|]; try (split; [reflexivity|exact I]).
+    pose proof (parse_level_pure _ _ _ _ _ Ep) as Hp.
+    destruct a; cbn [fst snd pres_ok asg_ok]; (split; [reflexivity|]); try (split; [exact Hf|exact Hp]).
+    reflexivity.
+  - (* the line is the single token '=': the right-hand side is empty *)
     subst idx. destruct tokens as [|a [|b r]]; cbn [length] in Hlen; try lia; [discriminate|].
-    cbn [skipn]. vm_compute. exact Hne.
+    cbn [skipn]. vm_compute. split; reflexivity.
+Qed.
+
+(* the parser leaves the session alone (a variable is registered by the interpreter only) *)
+Theorem parse_keeps_vars (tokens : list (token F)) vs : snd (parse tokens vs) = vs.
+Proof.
+  unfold parse. destruct (parse_assignment_ok tokens vs) as [H _].
+  destruct (parse_assignment tokens vs) as [[p vs'] rest]. cbn [fst snd] in H. subst vs'.
+  destruct p as [a|m|]; try reflexivity. destruct a; reflexivity.
+Qed.
+
+Theorem parse_pres_ok (tokens : list (token F)) vs : pres_ok (fst (parse tokens vs)).
+Proof.
+  unfold parse. destruct (parse_assignment_ok tokens vs) as [_ H].
+  destruct (parse_assignment tokens vs) as [[p vs'] rest]. cbn [fst snd] in H.
+  destruct p as [a|m|]; cbn [fst]; try exact H.
+  destruct a; try exact H. apply parse_level_pres_ok.
 Qed.
 
 Theorem parse_vars_ne (tokens : list (token F)) vs : vars_ne vs -> vars_ne (snd (parse tokens vs)).
-Proof.
-  intro Hne. unfold parse. pose proof (parse_assignment_vars_ne tokens vs Hne) as H.
-  destruct (parse_assignment tokens vs) as [[p vs'] rest]. cbn [fst snd] in H.
-  destruct p as [a|m|]; try exact H. destruct a; exact H.
-Qed.
+Proof. rewrite parse_keeps_vars. exact (fun H => H). Qed.
 
 Theorem execute_ast_vars_ne (bexec : config F -> str -> res (option F)) cfg : forall a vs r vs',
-  execute_ast bexec cfg vs a = Ok (r, vs') -> vars_ne vs -> vars_ne vs'.
+  asg_ok a -> execute_ast bexec cfg vs a = Ok (r, vs') -> vars_ne vs -> vars_ne vs'.
 Proof.
-  induction a as [ |f|i|m|l IHl op r0 IHr|op e IHe|name e IHe|v|name]; intros vs r vs' H Hne; cbn [execute_ast] in H;
-    try (inversion H; subst; exact Hne).
-  - destruct (execute_ast bexec cfg vs l) as [[[cl|m1] vs1]|site] eqn:El; cbn [bind] in H; try discriminate.
-    2:{ inversion H; subst. exact (IHl _ _ _ El Hne). }
-    pose proof (IHl _ _ _ El Hne) as H1.
-    destruct (execute_ast bexec cfg vs1 r0) as [[[cr|m2] vs2]|site] eqn:Er; cbn [bind] in H; try discriminate.
-    2:{ inversion H; subst. exact (IHr _ _ _ Er H1). }
-    pose proof (IHr _ _ _ Er H1) as H2.
-    assert (E : vs' = vs2).
-    { destruct cl; destruct cr; try (inversion H; reflexivity);
-        (destruct (calculate_item bexec cfg op _ _); cbn [bind] in H; [inversion H; reflexivity|discriminate]). }
-    subst vs'. exact H2.
-  - destruct (execute_ast bexec cfg vs e) as [[[v|m1] vs1]|site] eqn:Ee; cbn [bind] in H; try discriminate.
-    2:{ inversion H; subst. exact (IHe _ _ _ Ee Hne). }
-    pose proof (IHe _ _ _ Ee Hne) as H1.
-    destruct (N.eqb op OP_PLUS); [inversion H; subst; exact H1|].
-    destruct (N.eqb op OP_MINUS); [|inversion H; subst; exact H1].
-    destruct v; inversion H; subst; exact H1.
-  - destruct (execute_ast bexec cfg vs e) as [[[v|m1] vs1]|site] eqn:Ee; cbn [bind] in H; try discriminate.
-    2:{ inversion H; subst. exact (IHe _ _ _ Ee Hne). }
-    pose proof (IHe _ _ _ Ee Hne) as H1. inversion H; subst.
-    destruct (assoc name vs1) as [vi|] eqn:Ea; [|exact H1].
-    apply (assoc_insert_Forall (fun vi : varinfo F => v_tokens vi <> [])); [|exact H1]. cbn [v_tokens].
-    destruct (assoc_in _ _ _ Ea) as [k' Hin]. unfold vars_ne in H1. rewrite Forall_forall in H1. exact (H1 _ Hin).
+  intros a vs r vs' Ha H Hne.
+  assert (Hpure : pure a = true -> vars_ne vs').
+  { intro Hp. rewrite (exec_pure_vars bexec cfg a vs r vs' Hp H). exact Hne. }
+  destruct a as [ |f|i|m|l op r0|op e|name ntoks e|v|name]; try (apply Hpure; exact Ha).
+  destruct Ha as [Hf Hp]. cbn [execute_ast] in H.
+  destruct (execute_ast bexec cfg vs e) as [[[v|m1] vs1]|site] eqn:Ee; cbn [bind] in H; try discriminate.
+  2:{ inversion H; subst. rewrite (exec_pure_vars bexec cfg e vs _ _ Hp Ee). exact Hne. }
+  pose proof (exec_pure_vars bexec cfg e vs _ _ Hp Ee) as E1. subst vs1. inversion H; subst.
+  destruct (assoc name vs) as [vi|] eqn:Ea;
+    apply (assoc_insert_Forall (fun vi : varinfo F => v_tokens vi <> [])); try exact Hne; cbn [v_tokens]; [|exact Hf].
+  destruct (assoc_in _ _ _ Ea) as [k' Hin]. unfold vars_ne in Hne. rewrite Forall_forall in Hne. exact (Hne _ Hin).
 Qed.
 
 (* one evaluated line keeps the invariant, whatever its outcome *)
@@ -1749,12 +1766,12 @@ Proof.
   intros H Hne. unfold execute_text in H. destruct line as [|c0 line']; [inversion H; subst; exact Hne|].
   destruct (tokinize lx ck cfg lang vs (c0 :: line')) as [[st tokens]|site]; cbn [bind] in H; [|discriminate].
   destruct (ts_infos st); [inversion H; subst; exact Hne|].
-  pose proof (parse_vars_ne tokens vs Hne) as Hp.
-  destruct (parse tokens vs) as [[a|m|] vs1]; cbn [snd] in Hp; [|inversion H; subst; exact Hp|discriminate].
+  pose proof (parse_vars_ne tokens vs Hne) as Hp. pose proof (parse_pres_ok tokens vs) as Hok.
+  destruct (parse tokens vs) as [[a|m|] vs1]; cbn [fst snd pres_ok] in Hp, Hok; [|inversion H; subst; exact Hp|discriminate].
   destruct (execute_ast (basic_execute lx ck) cfg vs1 a) as [[[v|m] vs2]|site] eqn:Ea; cbn [bind] in H; [| |discriminate].
   - destruct (format_result cfg lang (ck_year ck) v); cbn [bind] in H; [|discriminate].
-    inversion H; subst. exact (execute_ast_vars_ne _ cfg a vs1 _ _ Ea Hp).
-  - inversion H; subst. exact (execute_ast_vars_ne _ cfg a vs1 _ _ Ea Hp).
+    inversion H; subst. exact (execute_ast_vars_ne _ cfg a vs1 _ _ Hok Ea Hp).
+  - inversion H; subst. exact (execute_ast_vars_ne _ cfg a vs1 _ _ Hok Ea Hp).
 Qed.
 
 End VarsInvariant.
@@ -1814,6 +1831,8 @@ Print Assumptions post_lexer_no_panic_reachable.
 Print Assumptions execute_text_no_panic_default.
 Print Assumptions execute_text_no_panic_reachable.
 Print Assumptions parse_vars_ne.
+Print Assumptions parse_keeps_vars.
+Print Assumptions parse_pres_ok.
 Print Assumptions parse_vars_in.
 Print Assumptions execute_text_vars_ne.
 Print Assumptions unit_pattern_without_value_example.
